@@ -241,7 +241,7 @@ func VerifC09_PingPongPool() {
 	verif.Replace("mosn.io/mosn/pkg/stream.NewStreamClient", func(ctx context.Context, prot api.ProtocolName, connection types.ClientConnection, host types.Host) str.Client {
 		return connection.(*zzPConn).client
 	})
-	idle0 := verif.Choose("initial_idle", 3)
+	idle0 := verif.Choose("initial_idle", verif.Param("idle", 2, 3))
 	if maxConn > 0 && idle0 > int(maxConn) {
 		idle0 = int(maxConn)
 	}
